@@ -39,6 +39,10 @@ type Block struct {
 	Rules    int  `json:"rules"`
 	Txs      []Tx `json:"txs"`
 	Prefetch bool `json:"prefetch,omitempty"`
+	// system-call scopes (executed from Cancun rules on): Pre under block access
+	// index 0 before the transactions, Post under index len(Txs)+1 after them
+	Pre  []Tx `json:"pre,omitempty"`
+	Post []Tx `json:"post,omitempty"`
 	// C14
 	CopyAt  int  `json:"copy_at"`  // Copy() after this many txs of the block (-1 = never)
 	CopyMid int  `json:"copy_mid"` // >= 0: Copy() inside tx CopyAt, before its op CopyMid or at the next point of call depth 0; CopyTxs[0] then continues that tx on the copy
@@ -320,6 +324,15 @@ func Gen(r *simcore.Rand, prop string) *Plan {
 				killTx = r.Range(clearTx+1, ntx-1)
 			}
 		}
+		pSys := 0.3
+		if prop == "C15" {
+			pSys = 0.5
+		}
+		if rules >= RCancun && r.Bool(pSys) {
+			for k := r.Range(1, 2); k > 0; k-- {
+				blk.Pre = append(blk.Pre, genSys(r, g, prop, 0))
+			}
+		}
 		copyAt := -1
 		if prop == "C14" && r.Bool(0.45) {
 			copyAt = r.Intn(ntx + 1)
@@ -354,6 +367,11 @@ func Gen(r *simcore.Rand, prop string) *Plan {
 		}
 		if copyAt == ntx {
 			fork = &exec{m: g.m.Fork()}
+		}
+		if rules >= RCancun && r.Bool(pSys) {
+			for k := r.Range(1, 3); k > 0; k-- {
+				blk.Post = append(blk.Post, genSys(r, g, prop, uint32(ntx+1)))
+			}
 		}
 		if fork != nil {
 			blk.CopyAt = copyAt
@@ -414,6 +432,16 @@ func genTxMid(r *simcore.Rand, g *exec, prop string, ti int, midAt int, onMid fu
 	if g.forceRoot {
 		tx.Root, g.forceRoot = true, false
 	}
+	g.endTx(&tx)
+	return tx
+}
+
+// genSys generates one system-call scope.
+func genSys(r *simcore.Rand, g *exec, prop string, idx uint32) Tx {
+	tx := Tx{Sender: 0, Dst: r.Intn(NA)}
+	g.beginSys(&tx, idx)
+	genOps(r, g, prop, &tx)
+	tx.Root = r.Bool(0.1)
 	g.endTx(&tx)
 	return tx
 }
@@ -676,6 +704,30 @@ func Shrink(pl any) []any {
 			q := clonePlan(p)
 			q.Blocks[bi].CopyTxs = s
 			add(q)
+		}
+		for _, s := range simcore.ShrinkSlice(b.Pre) {
+			q := clonePlan(p)
+			q.Blocks[bi].Pre = s
+			add(q)
+		}
+		for _, s := range simcore.ShrinkSlice(b.Post) {
+			q := clonePlan(p)
+			q.Blocks[bi].Post = s
+			add(q)
+		}
+		for ti := range b.Pre {
+			for _, s := range simcore.ShrinkSlice(b.Pre[ti].Ops) {
+				q := clonePlan(p)
+				q.Blocks[bi].Pre[ti].Ops = s
+				add(q)
+			}
+		}
+		for ti := range b.Post {
+			for _, s := range simcore.ShrinkSlice(b.Post[ti].Ops) {
+				q := clonePlan(p)
+				q.Blocks[bi].Post[ti].Ops = s
+				add(q)
+			}
 		}
 		if b.Prefetch || b.Flush || b.Reopen != 0 {
 			q := clonePlan(p)
